@@ -552,6 +552,19 @@ pub fn expected_hashes(ty: &Ty, v: &Val) -> Vec<Expected> {
         let Ok(bytes) = rxcdr::encode_bare(&kt, &kv, mode.ver, true, pol) else { continue };
         let over = max_size_exceeds(&kt, mode.ver, 16);
         let hash = if over { md5::compute(&bytes).0 } else { pad16(&bytes) };
+        // a nested mutable key struct kept with its own extensibility carries parameter /
+        // EMHEADER framing whose maximum size depends on encoder choices: accept both forms there
+        let framing_dependent = !mode.nested_final && kt.any(&|t| matches!(t, Ty::Struct(s) if s.ext == Ext::Mutable && s.name != "KeyHolder"));
+        if framing_dependent {
+            let other = if over {
+                if bytes.len() <= 16 { Some(pad16(&bytes)) } else { None }
+            } else {
+                Some(md5::compute(&bytes).0)
+            };
+            if let Some(h) = other {
+                out.push(Expected { mode, bytes: bytes.clone(), max_over_16: !over, hash: h });
+            }
+        }
         out.push(Expected { mode, bytes, max_over_16: over, hash });
     }
     out
@@ -825,7 +838,7 @@ pub fn main(ctx: &Ctx) -> ! {
     let strat = case_strategy(gc, 6);
     campaign(
         ctx,
-        CampaignCfg { stream: if is11 { "c11" } else { "c12" }, cases: ctx.pick(14_000, 300_000), batch: 256, max_shrink: ctx.pick(800, 3000) },
+        CampaignCfg { stream: if is11 { "c11" } else { "c12" }, cases: ctx.pick(14_000, if is11 { 300_000 } else { 150_000 }), batch: 256, max_shrink: ctx.pick(800, 3000) },
         &strat,
         &mut report,
         &|g: &GenCase| realize(g, &vc),
